@@ -6,9 +6,20 @@ import numpy as np
 from .universe import Dimension, DimensionSet, FlodymArray
 
 
-def make_dims(alphabet):
-    return {d: Dimension(name=name, letter=letter, items=[f"{d}_{i}" for i in range(1, size + 1)])
-            for d, letter, name, size in alphabet}
+import json
+import math
+
+INFLATE = 60000        # filler items per dimension in the inflated run: two dimensions already exceed 2^31 entries
+_CACHE = {}
+
+
+def make_dims(alphabet, inflate=0):
+    key = (json.dumps(alphabet), inflate)
+    if key not in _CACHE:
+        _CACHE[key] = {d: Dimension(name=name, letter=letter,
+                                    items=[f"{d}_{i}" for i in range(1, size + 1)] + [f"{d}_filler{i}" for i in range(inflate)])
+                       for d, letter, name, size in alphabet}
+    return _CACHE[key]
 
 
 def ids_of(dimset, dims):
@@ -28,7 +39,9 @@ def check_lookups(ds, exp, dims, what):
             return probs
         if tuple(ds.shape) != tuple(len(dims[e].items) for e in exp):
             probs.append(f"{what}: shape {ds.shape}")
-        if ds.total_size != int(np.prod([len(dims[e].items) for e in exp])) or len(ds) != len(exp) or ds.ndim != len(exp):
+        true_total = math.prod(len(dims[e].items) for e in exp)
+        # (beyond 2^63 - 1 entries numpy's 64-bit product wraps; no such array can exist, and the clause is not asserted there)
+        if (true_total < 2 ** 63 and ds.total_size != true_total) or len(ds) != len(exp) or ds.ndim != len(exp):
             probs.append(f"{what}: total_size/len/ndim disagree with the model")
         if bool(ds) != (len(exp) > 0) or ds.string != "".join(dims[e].letter for e in exp):
             probs.append(f"{what}: bool/string disagree with the model")
@@ -52,7 +65,15 @@ def check_lookups(ds, exp, dims, what):
 
 
 def run_history(vec):
-    dims = make_dims(vec["alphabet"])
+    problems = run_history_in(vec, 0)
+    if not problems and hash(json.dumps(vec["hist"], sort_keys=True)) % 5 == 0:
+        # the same history over LONG dimensions (tens of thousands of items; no array is allocated): sizes are exact integers
+        problems = [f"[dimensions inflated by {INFLATE} items] " + p for p in run_history_in(vec, INFLATE)]
+    return problems
+
+
+def run_history_in(vec, inflate):
+    dims = make_dims(vec["alphabet"], inflate)
     hist = vec["hist"]
     if not hist:
         return []
@@ -86,6 +107,18 @@ def run_history(vec):
                     result = s ^ t
                 else:
                     result = s + t
+                if len(t) == 1 and op != "xor":
+                    # a single Dimension as right operand means the one-element set
+                    # ('^' with a bare Dimension raises TypeError in the library - loud, and outside C14, which speaks of sets)
+                    fn = {"union": lambda: s | t[0], "inter": lambda: s & t[0], "diff": lambda: s - t[0], "xor": lambda: s ^ t[0],
+                          "plus": lambda: s + t[0]}[op]
+                    try:
+                        alt = fn()
+                        if ids_of(alt, dims) != ids_of(result, dims):
+                            problems.append(where + f"with the bare Dimension as right operand the result is {ids_of(alt, dims)}, "
+                                                    f"with the one-element set {ids_of(result, dims)}")
+                    except Exception as e2:
+                        problems.append(where + f"with the bare Dimension as right operand the call raised {type(e2).__name__}")
             elif op in ("append", "prepend", "expand", "insert", "drop", "replace"):
                 d, k, i = args
                 if op == "append":
@@ -107,11 +140,19 @@ def run_history(vec):
                 how = args[0]
                 result = s.copy() if how == "copy" else (s.get_subset() if how == "get_subset_noargs" else s[tuple(s.letters)])
             elif op == "build_array":
-                arr = FlodymArray(dims=s)
+                if not inflate:
+                    arr = FlodymArray(dims=s)
             else:
                 return [f"MACHINERY: unknown op {op}"]
         except Exception as e:
             raised = e
+            if op in ("union", "inter", "diff", "plus") and regs[args[0]] is not None and len(regs[args[0]]) == 1:
+                try:
+                    t0 = regs[args[0]][0]
+                    {"union": lambda: s | t0, "inter": lambda: s & t0, "diff": lambda: s - t0, "xor": lambda: s ^ t0, "plus": lambda: s + t0}[op]()
+                    problems.append(where + "refused for the one-element set but accepted for the bare Dimension as right operand")
+                except Exception:
+                    pass
         if outcome == "error" and raised is None:
             problems.append(where + "must be refused but was accepted")
         elif outcome == "ok" and raised is not None:
